@@ -230,6 +230,20 @@ CHECKS = {
                 "are driven under the virtual clock against a reference hold/release timer model.",
         "note": "DateTimeValueCmdObject / DateTimePatternValueCmdObject cannot be instantiated at all (constructor raises) and are counted as cannot_build",
     },
+    "C16": {
+        "level": "exploration",
+        "design_ref": "DESIGN.md 3 C16",
+        "technique": "runtime monitor: reference subscription table + change detector stepped in parallel with a real device and real subscriber stacks under the virtual clock; notifications recorded at the subscribers' application boundary",
+        "text": "Random timelines of subscribe / re-subscribe (changed lifetime incl. 0 and absent, changed confirmed flag) "
+                "/ cancel from 1..3 subscriber stacks x 2 process ids on analog, binary, multi-state and pulse-converter "
+                "objects are interleaved with direct and over-the-wire writes (sub-increment, exact increment, returns to "
+                "the old value, bursts within one instant), status-flag writes and virtual-time steps across every expiry. "
+                "After every step the notifications that reached the subscribers must be exactly those the reference "
+                "table demands: acknowledgement + one initial notification, one notification per live subscription per "
+                "qualifying change, right kind (latest subscription), current values and flags, remaining time within "
+                "+-1 s, none after cancellation or expiry; activeCovSubscriptions read over the wire must equal the live set.",
+        "note": "two tolerances (per-object vs per-subscriber 'last reported value'; coalescing of writes within one instant) keep the oracle within the statement",
+    },
 }
 
 NOT_APPLICABLE = {pid: _PENDING for pid in ("C%02d" % i for i in range(1, 21)) if pid not in CHECKS}
